@@ -3,6 +3,7 @@ package fzf
 import (
 	"unicode/utf8"
 
+	"github.com/junegunn/fzf/src/tui"
 	"github.com/junegunn/fzf/src/zzv"
 )
 
@@ -210,5 +211,240 @@ func zzH_C11_strip() {
 		} else {
 			zzv.Assert("spans-within-text", inText)
 		}
+	}
+}
+
+func init() {
+	zzHarnesses["zzH_C11_osc"] = zzH_C11_osc
+	zzHarnesses["zzH_C11_sgr"] = zzH_C11_sgr
+}
+
+// H11.osc: grammar-generated strings around an operating-system command: optional text, ESC ] digits
+// separator payload, every terminator form (BEL, ESC \, lone ESC, none), optional trailing text.
+func zzH_C11_osc() {
+	b := []byte{}
+	for i, n := 0, zzv.Choose(0, 1); i < n; i++ {
+		b = append(b, zzAnsiAlphabet[zzv.Below(len(zzAnsiAlphabet))])
+	}
+	b = append(b, 0x1b, ']')
+	for i, n := 0, zzv.Choose(1, 2); i < n; i++ {
+		b = append(b, "081"[zzv.Below(3)])
+	}
+	b = append(b, ";:"[zzv.Below(2)])
+	for i, n := 0, zzv.Choose(0, zzv.CfgInt("payload")); i < n; i++ {
+		b = append(b, "a;\\ "[zzv.Below(4)])
+	}
+	switch zzv.Choose(0, 3) {
+	case 0:
+		b = append(b, 0x07)
+	case 1:
+		b = append(b, 0x1b, '\\')
+	case 2:
+		b = append(b, 0x1b)
+	}
+	for i, n := 0, zzv.Choose(0, zzv.CfgInt("tail")); i < n; i++ {
+		b = append(b, zzAnsiAlphabet[zzv.Below(len(zzAnsiAlphabet))])
+	}
+	s := string(b)
+	x, y := nextAnsiEscapeSequence(s)
+	zzv.Reach("called")
+	zzv.Observe("start", x)
+	zzv.Observe("end", y)
+	rx, ry := zzRefNext(s)
+	zzv.Assert("same-as-regex", x == rx && y == ry)
+	out, _, _ := extractColor(s, nil, nil)
+	zzv.Assert("stripped-text", out == zzRefStrip(s))
+}
+
+// ---- reference SGR interpreter (ECMA-48 / xterm) for the codes fzf supports ----
+
+type zzSGR struct {
+	fg, bg int32
+	attr   int32
+}
+
+const (
+	zzBold = 1 << iota
+	zzDim
+	zzItalic
+	zzUnderline
+	zzBlink
+	zzReverse
+	zzStrike
+)
+
+func zzAttrBit(a tui.Attr) int32 {
+	var r int32
+	if a&tui.Bold > 0 {
+		r |= zzBold
+	}
+	if a&tui.Dim > 0 {
+		r |= zzDim
+	}
+	if a&tui.Italic > 0 {
+		r |= zzItalic
+	}
+	if a&tui.Underline > 0 {
+		r |= zzUnderline
+	}
+	if a&tui.Blink > 0 {
+		r |= zzBlink
+	}
+	if a&tui.Reverse > 0 {
+		r |= zzReverse
+	}
+	if a&tui.StrikeThrough > 0 {
+		r |= zzStrike
+	}
+	return r
+}
+
+func zzRefSGR(prev zzSGR, params []int) zzSGR {
+	st := prev
+	if len(params) == 0 {
+		return zzSGR{-1, -1, 0}
+	}
+	for i := 0; i < len(params); i++ {
+		p := params[i]
+		switch {
+		case p == 0:
+			st = zzSGR{-1, -1, 0}
+		case p == 1:
+			st.attr |= zzBold
+		case p == 2:
+			st.attr |= zzDim
+		case p == 3:
+			st.attr |= zzItalic
+		case p == 4:
+			st.attr |= zzUnderline
+		case p == 5:
+			st.attr |= zzBlink
+		case p == 7:
+			st.attr |= zzReverse
+		case p == 9:
+			st.attr |= zzStrike
+		case p == 22:
+			st.attr &^= zzBold | zzDim
+		case p == 23:
+			st.attr &^= zzItalic
+		case p == 24:
+			st.attr &^= zzUnderline
+		case p == 25:
+			st.attr &^= zzBlink
+		case p == 27:
+			st.attr &^= zzReverse
+		case p == 29:
+			st.attr &^= zzStrike
+		case p >= 30 && p <= 37:
+			st.fg = int32(p - 30)
+		case p == 39:
+			st.fg = -1
+		case p >= 40 && p <= 47:
+			st.bg = int32(p - 40)
+		case p == 49:
+			st.bg = -1
+		case p >= 90 && p <= 97:
+			st.fg = int32(p - 90 + 8)
+		case p >= 100 && p <= 107:
+			st.bg = int32(p - 100 + 8)
+		case p == 38 || p == 48:
+			// 38;5;n  or  38;2;r;g;b  (well-formed by construction)
+			var col int32
+			if params[i+1] == 5 {
+				col = int32(params[i+2])
+				i += 2
+			} else {
+				col = int32(1<<24 | params[i+2]<<16 | params[i+3]<<8 | params[i+4])
+				i += 4
+			}
+			if p == 38 {
+				st.fg = col
+			} else {
+				st.bg = col
+			}
+		}
+	}
+	return st
+}
+
+var zzSimpleCodes = []int{0, 1, 2, 3, 4, 5, 7, 9, 22, 23, 24, 25, 27, 29, 30, 37, 39, 40, 47, 49, 90, 97, 100, 107, 6, 21}
+
+// H11.sgr: for well-formed SGR sequences the colour/attribute state is what a terminal would show;
+// the hyperlink and line background carried over from before are untouched.
+func zzH_C11_sgr() {
+	sep := ";:"[zzv.CfgInt("colon")]
+	params := []int{}
+	code := []byte{0x1b, '['}
+	emit := func(v int, sym bool) {
+		if len(params) > 0 {
+			code = append(code, sep)
+		}
+		params = append(params, v)
+		if sym {
+			return
+		}
+		if v >= 100 {
+			code = append(code, byte('0'+v/100))
+		}
+		if v >= 10 {
+			code = append(code, byte('0'+(v/10)%10))
+		}
+		code = append(code, byte('0'+v%10))
+	}
+	symNum := func() {
+		// one or two symbolic decimal digits
+		d1 := zzv.Below(10)
+		v := d1
+		if len(params) > 0 {
+			code = append(code, sep)
+		}
+		code = append(code, byte('0'+d1))
+		if zzv.Bool() {
+			d2 := zzv.Below(10)
+			code = append(code, byte('0'+d2))
+			v = d1*10 + d2
+		}
+		params = append(params, v)
+	}
+	items := zzv.Choose(0, zzv.CfgInt("items"))
+	for k := 0; k < items; k++ {
+		switch zzv.Choose(0, 2) {
+		case 0:
+			emit(zzSimpleCodes[zzv.Choose(0, len(zzSimpleCodes)-1)], false)
+		case 1:
+			emit(38+10*zzv.Choose(0, 1), false)
+			emit(5, false)
+			symNum()
+		case 2:
+			emit(38+10*zzv.Choose(0, 1), false)
+			emit(2, false)
+			symNum()
+			symNum()
+			symNum()
+		}
+	}
+	code = append(code, 'm')
+	var prev *ansiState
+	ref := zzSGR{-1, -1, 0}
+	link := &url{uri: "u"}
+	switch zzv.Choose(0, 2) {
+	case 1:
+		prev = &ansiState{fg: 3, bg: -1, attr: tui.Bold, lbg: -1}
+		ref = zzSGR{3, -1, zzBold}
+	case 2:
+		prev = &ansiState{fg: -1, bg: 4, attr: tui.Underline, lbg: 2, url: link}
+		ref = zzSGR{-1, 4, zzUnderline}
+	}
+	got := interpretCode(string(code), prev)
+	zzv.Reach("called")
+	zzv.Observe("fg", int(got.fg))
+	zzv.Observe("bg", int(got.bg))
+	want := zzRefSGR(ref, params)
+	zzv.Assert("colours-as-a-terminal-would-show", int32(got.fg) == want.fg && int32(got.bg) == want.bg)
+	zzv.Assert("attributes-as-a-terminal-would-show", zzAttrBit(got.attr) == want.attr)
+	if prev != nil {
+		zzv.Assert("hyperlink-and-line-background-carried-over", got.url == prev.url && got.lbg == prev.lbg)
+	} else {
+		zzv.Assert("no-hyperlink-from-nowhere", got.url == nil && got.lbg == -1)
 	}
 }
